@@ -401,14 +401,26 @@ def batches(rng, tier):
     sys_ops = systematic(range(0, 5) if thorough else range(0, 4), [None, 0, 1, 2, 3] if thorough else [None, 1, 3], thorough)
     yield Batch("systematic-single-ops", sys_ops, kind="history", exhaustive=True,
                 note="all positions/counts/aliases for sizes 0..%d x spare capacity" % (4 if thorough else 3))
+    # comparison.hpp on every pair of short vectors (equal prefixes, different lengths, empty, one differing element at each place)
+    import itertools
+    seqs = [list(t) for n in range(0, 4 if thorough else 3) for t in itertools.product([0, 1, 2] if thorough else [0, 1], repeat=n)]
+    cmp_ops = []
+    for a in seqs:
+        for b in seqs:
+            cmp_ops += ["reset",
+                        "ctor 0 il " + (",".join(map(str, a)) if a else "-"),
+                        "ctor 1 il " + (",".join(map(str, b)) if b else "-"),
+                        "cmp 0 1", "cmp 1 0", "cmp 0 0"]
+    yield Batch("cmp-all-pairs", cmp_ops, kind="history", exhaustive=True,
+                note="== != < > <= >= on every pair of vectors over a small alphabet up to length %d" % (3 if thorough else 2))
     stats = {}
-    ops = histories(rng.fork("vec"), 30000 if thorough else 1500, 60 if thorough else 30, stats, 8)
+    ops = histories(rng.fork("vec"), 30000 if thorough else 6000, 60 if thorough else 30, stats, 8)
     yield Batch("vector-histories", ops, kind="history", note="random histories; generator distribution: " + fmt_stats(stats))
     stats = {}
-    ops = buffer_histories(rng.fork("buf"), 15000 if thorough else 800, 14 if thorough else 10, stats)
+    ops = buffer_histories(rng.fork("buf"), 15000 if thorough else 3000, 14 if thorough else 10, stats)
     yield Batch("buffer-histories", ops, kind="history", note="buffer histories ending in to_raw_vector; distribution: " + fmt_stats(stats))
     stats = {}
-    ops = histories(rng.fork("long"), 3000 if thorough else 150, 120 if thorough else 60, stats, 30)
+    ops = histories(rng.fork("long"), 3000 if thorough else 600, 120 if thorough else 60, stats, 30)
     yield Batch("mixed-long-histories", ops, kind="history", note="longer mixed vector/buffer histories; distribution: " + fmt_stats(stats))
 
 
